@@ -283,8 +283,27 @@ func emitTemplate(tree *ast.Tree, typeInfos map[ast.Node]*typeInfo, indirectVars
 	e.fb = newBuilder(newMacro("main", "main", typ, tree.Format, tree.Path, tree.Pos()), tree.Path)
 	e.fb.changePath(tree.Path)
 	e.fb.enterScope()
+	// The template starts by jumping to the code, emitted after the body,
+	// that initializes the imported files and then jumps back.
+	initLabel := e.fb.newLabel()
+	bodyLabel := e.fb.newLabel()
+	e.fb.emitGoto(initLabel)
+	e.fb.setLabelAddr(bodyLabel)
 	e.emitNodes(tree.Nodes)
 	e.fb.exitScope()
+	e.fb.flushText()
+	e.fb.emitReturn()
+	e.fb.setLabelAddr(initLabel)
+	called := map[*runtime.Function]bool{}
+	for _, init := range e.templateInits {
+		if called[init] {
+			continue
+		}
+		called[init] = true
+		index := e.fb.addFunction(init)
+		e.fb.emitCallFunc(index, runtime.StackShift{}, nil)
+	}
+	e.fb.emitGoto(bodyLabel)
 	e.fb.end()
 	return &Code{Main: e.fb.fn, TypeOf: e.types.TypeOf, Globals: e.varStore.getGlobals()}, nil
 }
